@@ -22,7 +22,14 @@ Checked after every operation:
     parent's shard (a decoy child row with the same foreign key sits in
     another shard); refresh reloads from the object's own shard;
   * bulk UPDATE through the session changes exactly the chosen shards'
-    matching rows and keeps loaded objects in sync.
+    matching rows and keeps loaded objects in sync;
+  * merge family (second alphabet, same configurations): detached objects
+    loaded from each shard by an earlier ShardedSession (identity key with
+    token), modified, then merge()d -- the merge target is the object of the
+    source's own shard (same identity key incl. token; a new pending object
+    if that shard's row is gone), never a same-pk object of another shard,
+    those are left untouched, and the flush writes to the source's shard
+    only (placement).
 
 Mutations caught (private copy, `VF_REPO=/tmp/wt-bulk/c53 ./check C53`):
   h1 ext/horizontal_shard.py iter_for_shard: `update_execution_options(identity_token=shard_id)` dropped
@@ -35,6 +42,9 @@ Mutations caught (private copy, `VF_REPO=/tmp/wt-bulk/c53 ./check C53`):
      -> lazy-load-shard (decoy child from the other shard shows up), placement-child
   h5 orm/bulk_persistence.py _get_matched_objects_on_criteria: identity-token filter dropped
      -> stale-object (after ['get7t'] then updk3 with the subset execute chooser)
+  h6 orm/session.py _merge: `identity_token=key[2]` dropped from the get() that loads the merge target (seeded C53-a)
+     -> merge-raised (after [] then mrg70), merge-wrong-identity / merge-touched-other-shard (after ['get7t'] then mrg70),
+        token-mismatch (subset execute chooser, after [] then mrg73)
 """
 from __future__ import annotations
 
@@ -72,20 +82,25 @@ META = dict(
     "operation histories up to the depth over an alphabet of 21 operations (add objects incl. two with the same primary key "
     "and a parent with a child, flush, commit, get by pk with and without identity token, queries with and without key "
     "criterion, lazy load, modify, delete, refresh, bulk UPDATE); the pre-loaded data set has the "
-    "same primary key on two shards and a decoy child row in the wrong shard. Each history is replayed on a real "
+    "same primary key on two shards and a decoy child row in the wrong shard. A second family per configuration uses an "
+    "alphabet of 10 operations around Session.merge(): merge of a detached, modified object that an earlier ShardedSession "
+    "loaded from a given shard (the two objects sharing primary key 7 on different shards, and the unique-pk object 1) "
+    "x flush, commit, get with/without token, query, modify, delete. Each history is replayed on a real "
     "ShardedSession over in-memory SQLite shards; states are deduplicated on a canonical form taken from the implementation "
     "(raw shard contents, identity map with tokens and loaded values, new/dirty/deleted sets).",
     level_note="Trusted: the ~150-line model; SQLite in-memory databases as shards. Choosers follow the documented recipe "
     "(lazy_loaded_from honoured by identity and execute chooser). Not covered: set_shard_id option, legacy ShardedQuery, "
-    "multi-threaded use.",
+    "multi-threaded use, merge(load=False), merge cascading along relationships (detached sources have no collection loaded).",
     rule="state = canonical implementation state (see above); transition = one operation applied to a replayed history with "
     "all invariants checked; non-trivial = the operation touched the database while rows with that key/pk existed on more "
     "than one shard or the chooser excluded a shard that holds matching rows",
     assumptions=["shard chooser is a pure function of the object's key column", "single session, single thread"],
     bounds=dict(
-        quick="2 shards: all 16 shard choosers x 2 identity orders x 3 execute choosers; histories <= 3 operations",
+        quick="2 shards: all 16 shard choosers x 2 identity orders x 3 execute choosers; histories <= 3 operations over the "
+        "21-operation alphabet, and histories <= 3 over the 10-operation merge alphabet",
         thorough="3 shards: all 81 shard choosers x 2 x 3, histories <= 3 operations; 2 shards: all 96 configurations <= 3, "
-        "histories <= 4 for 4 choosers x (by-criterion, subset) execute choosers",
+        "histories <= 4 for 4 choosers x (by-criterion, subset) execute choosers; merge alphabet: 3 shards all 486 "
+        "configurations <= 3, 2 shards all 96 configurations <= 3 and <= 4 for 4 choosers x forward identity order",
     ),
 )
 SHARD_TIMEOUT = dict(quick=300, thorough=1700)
@@ -131,8 +146,9 @@ def shard_engines(n):
 
 
 class Config:
-    def __init__(self, n, f, idc, exc):
-        self.n, self.f, self.idc, self.exc = n, tuple(f), idc, exc
+    def __init__(self, n, f, idc, exc, fam="base"):
+        self.n, self.f, self.idc, self.exc, self.fam = n, tuple(f), idc, exc, fam
+        self._det = None  # merge family: detached objects loaded from each shard by an earlier session
         self.names = ALL[:n]
         self.subset = self.names[: max(1, n - 1)]  # the fixed subset: all but the last shard
 
@@ -210,7 +226,11 @@ def make_session(cfg):
 
 # ------------------------------------------------------------------ model
 
-NEW = {"A": (3, 0, "a"), "A2": (3, 3, "a2"), "B": (4, 3, "b"), "AC": (3, 0, "a")}
+NEW = {"A": (3, 0, "a"), "A2": (3, 3, "a2"), "B": (4, 3, "b"), "AC": (3, 0, "a"),
+       # merge() of a detached object whose row is gone re-creates it as a pending object
+       "G70": (7, 0, "G"), "G73": (7, 3, "G"), "G11": (1, 1, "G")}
+# merge operations: the detached source object (id, k) -- loaded from shard chooser(k) by an earlier session, v set to "G"
+MERGE_SRC = {"mrg70": (7, 0), "mrg73": (7, 3), "mrg1": (1, 1)}
 
 
 class Model:
@@ -258,8 +278,15 @@ OPS = ["addA", "addA2", "addB", "addAC", "flush", "commit", "get1", "get7", "get
        "lazy1", "mod1", "mod7", "del1", "del7", "refresh7", "updk0", "updk3"]
 
 
+# the merge family: merge() of detached objects from each shard crossed with the operations that load, modify,
+# delete and flush the objects with the two-shard primary key
+MERGE_OPS = ["mrg70", "mrg73", "mrg1", "flush", "commit", "get7", "get7t", "qall", "mod7", "del7"]
+
+
 def enabled(cfg, m):
     out = []
+    if cfg.fam == "merge":
+        return [op for op in MERGE_OPS if not (op == "mrg73" and cfg.f[0] == cfg.f[3])]
     for op in OPS:
         if op in ("addA", "addAC"):
             if "A" in m.used or (3, 0) in m.rows:
@@ -286,6 +313,16 @@ class Impl:
             self.engines[sh][1].execute("INSERT INTO part (id, item_id, note) VALUES (?, ?, ?)", (pid, item_id, note))
         for name, (eng, raw) in self.engines.items():
             raw.commit()
+        if cfg.fam == "merge" and cfg._det is None:
+            # an earlier session loads every row from its own shard; closed -> detached objects that keep their
+            # identity key incl. the identity token; then modified, as a web application would before merging them
+            # back.  merge() only reads its argument, so one set per configuration serves every replay
+            loader = make_session(cfg)
+            det = {(i, k): loader.get(Item, i, identity_token=cfg.shard_of_key(k)) for (i, k) in sorted(cfg.initial_rows())}
+            loader.close()
+            for o in det.values():
+                o.v = "G"
+            cfg._det = det
         self.sess = make_session(cfg)
         self.reg = {}  # (id, token) -> object seen so far
 
@@ -514,6 +551,45 @@ def apply_op(impl, m, op, check):
         for ident in hit:
             m.rows[ident] = "U"
         sess.execute(update(Item).where(Item.k == kv).values(v="U"))
+    elif op in MERGE_SRC:
+        i, k = MERGE_SRC[op]
+        det = cfg._det[(i, k)]
+        dkey = inspect(det).key
+        tok = cfg.shard_of_key(k)
+        if m.has_pending():
+            m.flush(cfg)  # merge(load=True) autoflushes before it looks for the target
+        others = [o for o in list(sess.identity_map.values()) if isinstance(o, Item) and inspect(o).identity == (i,) and inspect(o).identity_token != tok]
+        before = [(inspect(o).dict.get("k"), inspect(o).dict.get("v")) for o in others]
+        nontriv = len([1 for (i2, k2) in m.rows if i2 == i]) > 1
+        try:
+            merged = sess.merge(det)
+        except orm_exc.MultipleResultsFound as e:
+            merged = None
+            gc.collect(1)
+            bad("merge-raised", "merge of detached %r raised MultipleResultsFound: %s" % (dkey[1:], e))
+        if merged is not None:
+            st = inspect(merged)
+            if (i, k) in m.rows:
+                # the target is the object of the *same shard* (identity map resident or loaded from that shard)
+                m.dirty[(i, k)] = "G"
+                m.imap.add((i, k))
+                if check and (not st.persistent or st.key != dkey or any(merged is o for o in others)):
+                    bad("merge-wrong-identity", "merge of detached %r (k=%r) returned object with key %r token %r k=%r"
+                        % (dkey[1:], k, st.key and st.key[1], st.identity_token, st.dict.get("k")))
+                elif check and (merged.id, merged.k, merged.v) != (i, k, "G"):
+                    bad("merge-state", "merge of detached %r gave (id, k, v)=%r" % (dkey[1:], (merged.id, merged.k, merged.v)))
+                if st.persistent:
+                    impl.note([merged], problems)
+            else:
+                # the row is gone from its shard: merge() makes a new pending object, INSERTed per shard chooser at flush
+                m.pend = m.pend + ("G%d%d" % (i, k),)
+                if check and (not st.pending or any(merged is o for o in others)):
+                    bad("merge-wrong-identity", "merge of detached %r (row deleted) returned non-pending object key %r token %r"
+                        % (dkey[1:], st.key and st.key[1], st.identity_token))
+            if check:
+                after = [(inspect(o).dict.get("k"), inspect(o).dict.get("v")) for o in others]
+                if after != before:
+                    bad("merge-touched-other-shard", "merge of detached %r changed same-pk objects of other shards: %r -> %r" % (dkey[1:], before, after))
     else:
         raise AssertionError(op)
 
@@ -556,7 +632,10 @@ def shards(tier, seed):
     out = []
     if tier == "quick":
         out += [(c, 3) for c in configs(2)]
+        out += [(c, 3, "merge") for c in configs(2)]
     else:
+        out += [(c, 3, "merge") for c in configs(3)]
+        out += [(c, 4 if (c[1] in DEEP and c[2] == "fwd") else 3, "merge") for c in configs(2)]
         out += [(c, 3) for c in configs(3)]
         out += [((2, f, "fwd", exc), 4) for f in DEEP for exc in ("bycrit", "subset")]
         out += [(c, 3) for c in configs(2) if not (c[1] in DEEP and c[2] == "fwd" and c[3] in ("bycrit", "subset"))]
@@ -585,12 +664,17 @@ def _own_gc():
     gc.freeze()
 
 
+def _cname(n, f, idc, exc, fam):
+    return "shards=%d chooser=%s identity=%s execute=%s%s" % (n, "".join(map(str, f)), idc, exc, "" if fam == "base" else " alphabet=" + fam)
+
+
 def run_shard(shard, tier, rec):
     _own_gc()
     _BUILDS[0] = 0
-    (n, f, idc, exc), depth = shard
-    cfg = Config(n, f, idc, exc)
-    cname = "shards=%d chooser=%s identity=%s execute=%s" % (n, "".join(map(str, f)), idc, exc)
+    (n, f, idc, exc), depth = shard[0], shard[1]
+    fam = shard[2] if len(shard) > 2 else "base"
+    cfg = Config(n, f, idc, exc, fam)
+    cname = _cname(n, f, idc, exc, fam)
 
     def step(history, ms, op):
         impl, m = build(cfg, history)
@@ -606,11 +690,13 @@ def run_shard(shard, tier, rec):
                 for kind, msg in problems[:2]:
                     rec.violation(
                         "%s: %s after %s then %s" % (kind, cname, list(history), op), msg,
-                        dict(n=n, f=f, idc=idc, exc=exc, history=list(history), op=op), kind=(kind,),
+                        dict(n=n, f=f, idc=idc, exc=exc, fam=fam, history=list(history), op=op), kind=(kind,),
                     )
                 return None
             key = impl.canon()
             rec.outcome((op, key[0]))
+            if op in MERGE_SRC:
+                rec.count("merge_operations")
             if nontriv and len(history) >= 1 and op in ("flush", "commit", "qall", "updk0", "updk3"):
                 rec.sample(dict(config=cname, history=list(history) + [op], shard_contents={k2: [list(r) for r in v] for k2, v in impl.raw()[0].items()}), limit=2)
             return m, (cname, key)
@@ -624,15 +710,16 @@ def run_shard(shard, tier, rec):
     key = impl.canon()
     impl.close()
     d = hist.explore(rec, [((), m, (cname, key))], enabled_ops, step, depth=depth)
-    rec.count("configurations_%d_shards" % n)
+    rec.count("configurations_%d_shards%s" % (n, "" if fam == "base" else "_" + fam))
     rec.count("histories_depth_%d" % d)
 
 
 def replay(case):
     _own_gc()
     _BUILDS[0] = 0
-    cfg = Config(case["n"], case["f"], case["idc"], case["exc"])
-    cname = "shards=%d chooser=%s identity=%s execute=%s" % (case["n"], "".join(map(str, case["f"])), case["idc"], case["exc"])
+    fam = case.get("fam", "base")
+    cfg = Config(case["n"], case["f"], case["idc"], case["exc"], fam)
+    cname = _cname(case["n"], case["f"], case["idc"], case["exc"], fam)
     impl, m = build(cfg, tuple(case["history"]))
     try:
         try:
